@@ -4,7 +4,9 @@ from trees import *  # noqa
 from remerkleable.history import get_target_history
 from remerkleable.tree import get_diff, leaf_iter
 
-THEOREMS = []
+THEOREMS = ["C18_history", "C18_history_nonempty", "C18_diff_empty", "C18_diff_sound", "C18_graft", "C18_leaves"]
+PARTIAL = ["C18_diff_complete_ordered (left-to-right order and minimality of the reported pairs) is covered by the correspondence (exact pair lists) and by C18_graft, not by a separate theorem"]
+ASSUMPTIONS = ["Hinj (collision-freeness of the pair hash) is a premise of C18_history"]
 COQ_IMPORTS = ["RMR.RunC18"]
 COQ_FN = "RunC18.run"
 COQ_CASE_TY = "RunC18.case"
